@@ -97,6 +97,7 @@ type c16Case struct {
 	NoTool    bool          `json:"no_tool,omitempty"`    // PATH lacks perf_to_profile: every PERFILE2 file fails to convert
 	StdUI     bool          `json:"default_ui,omitempty"` // Options.UI == nil, run in a child process whose stderr is checked line by line
 	Rounds    int           `json:"rounds,omitempty"`
+	Envs      []c16Env      `json:"envs,omitempty"`            // run in child processes under these environments (c16_env.go)
 	Perf      bool          `json:"perf_conversion,omitempty"` // perf.data sources converted by the stand-in perf_to_profile (c16_perf.go)
 	Units     bool          `json:"units,omitempty"`           // sources report their sample types in different compatible units (c16_units.go)
 	Bin       bool          `json:"binary_location,omitempty"` // mappings are located under a generated $PPROF_BINARY_PATH tree (c16_bin.go)
@@ -1320,6 +1321,10 @@ func (k *c16Checker) runCase(cs *c16Case) {
 		k.runStdUI(cs)
 		return
 	}
+	if len(cs.Envs) > 0 {
+		k.runEnv(cs)
+		return
+	}
 	n, m := len(cs.Sources), len(cs.Bases)
 	kinds := c16Kinds(cs, false)
 	exp := c16Expected(cs, kinds)
@@ -1733,7 +1738,7 @@ func runC16(c *Ctx) {
 }
 
 func c16Worker(c *Ctx) {
-	c.Res.Rule = "cases: 1…300 sources (all sizes 1-8 with every outcome vector and EVERY completion order for n=3, sizes around the 127/128/129 and 255/256/257 chunk boundaries, random sizes) × 0…130 -base/-diff_base sources, each source independently a valid profile (from the Fetcher plug-in, a file, or an HTTP body), or failing (Fetcher error, missing file, garbage file/body, invalid profile, HTTP 500, transport error); a stream of 2…8 sources (+ bases) mixing https:// (untrusted server: must fail; server trusted through -tls_ca: must succeed), https+insecure://, http:// and file/plug-in sources fetched through the PRODUCTION internal/transport against servers on 127.0.0.1, released one after the other in PRNG permutations, all-insecure-first and all-strict-first orders, plus one delay-scheduled run through the driver's default transport wiring; a stream of 2…7 sources (+ bases) whose mappings (same file name under several build ids, some without build id) are located under a generated $PPROF_BINARY_PATH tree (<buildid>/<name>, plain <name>, stale and missing entries) through a mock ObjTool, with failing neighbours, under ≥3 delay schedules; a stream of perf.data sources with EQUAL base names in different directories, converted concurrently by a stand-in perf_to_profile (this binary re-executed) whose writes and exits are staggered so that the conversions overlap; a stream of bursts (40…200 local profile files mixed with PERFILE2-prefixed files — convertible, failing, and unconvertible because PATH lacks the tool — all released into pprof's fetch code at the same instant, 4 rounds each); a stream through driver.PProf with the DEFAULT UI (Options.UI == nil) in a child process whose stderr is a one-page pipe with a slow reader, ≥100 failing sources and ≥100 failing bases, 8 rounds: every stderr line is exactly one complete message; a stream of sources reporting the same sample types in different compatible units (ns/us/ms/s, bytes/kB/MB) in every position with failing neighbours (merged values = sum of the per-source values converted to the finest unit among the successful ones); each case runs the real driver.PProf under ≥3 PRNG-derived delay schedules (random, reverse, failures-first) and with the failing sources failing differently. non-trivial = ≥2 sources, at least one success and one failure, an observed completion order that is not the command-line order and ≥2 distinct observed completion orders."
+	c.Res.Rule = "cases: 1…300 sources (all sizes 1-8 with every outcome vector and EVERY completion order for n=3, sizes around the 127/128/129 and 255/256/257 chunk boundaries, random sizes) × 0…130 -base/-diff_base sources, each source independently a valid profile (from the Fetcher plug-in, a file, or an HTTP body), or failing (Fetcher error, missing file, garbage file/body, invalid profile, HTTP 500, transport error); a stream of 2…8 sources (+ bases) mixing https:// (untrusted server: must fail; server trusted through -tls_ca: must succeed), https+insecure://, http:// and file/plug-in sources fetched through the PRODUCTION internal/transport against servers on 127.0.0.1, released one after the other in PRNG permutations, all-insecure-first and all-strict-first orders, plus one delay-scheduled run through the driver's default transport wiring; a stream of 2…7 sources (+ bases) whose mappings (same file name under several build ids, some without build id) are located under a generated $PPROF_BINARY_PATH tree (<buildid>/<name>, plain <name>, stale and missing entries) through a mock ObjTool, with failing neighbours, under ≥3 delay schedules; a stream of perf.data sources with EQUAL base names in different directories, converted concurrently by a stand-in perf_to_profile (this binary re-executed) whose writes and exits are staggered so that the conversions overlap; a stream of bursts (40…200 local profile files mixed with PERFILE2-prefixed files — convertible, failing, and unconvertible because PATH lacks the tool — all released into pprof's fetch code at the same instant, 4 rounds each); a stream through driver.PProf with the DEFAULT UI (Options.UI == nil) in a child process whose stderr is a one-page pipe with a slow reader, ≥100 failing sources and ≥100 failing bases, 8 rounds: every stderr line is exactly one complete message; a stream of URL-source cases run in child processes under 6 environments each (HOME unset/empty/unusable/usable × PPROF_TMPDIR unset/usable/unusable × TMPDIR unset/usable/unusable × cwd writable or not, always with a successfully fetched remote source so that the save step runs): verdict, report and per-source error lines equal the expectation in every environment; a stream of sources reporting the same sample types in different compatible units (ns/us/ms/s, bytes/kB/MB) in every position with failing neighbours (merged values = sum of the per-source values converted to the finest unit among the successful ones); each case runs the real driver.PProf under ≥3 PRNG-derived delay schedules (random, reverse, failures-first) and with the failing sources failing differently. non-trivial = ≥2 sources, at least one success and one failure, an observed completion order that is not the command-line order and ≥2 distinct observed completion orders."
 	root, err := os.MkdirTemp("", "pvc16-")
 	if err != nil {
 		c.Res.HarnessError = "cannot create scratch directory: " + err.Error()
@@ -1855,6 +1860,10 @@ func c16Worker(c *Ctx) {
 	// (1g) the driver's default UI: error lines of the two groups printed concurrently
 	for i := 0; i < 3*c.Scale; i++ {
 		k.runCase(c16GenStdUI(r.Fork(), i))
+	}
+	// (1h) URL sources under varying process environments (HOME / PPROF_TMPDIR / TMPDIR / cwd)
+	for i := 0; i < 4*c.Scale; i++ {
+		k.runCase(c16GenEnv(r.Fork(), i))
 	}
 	// (1e) the same sample types in different compatible units
 	for i := 0; i < 10*c.Scale; i++ {
